@@ -163,6 +163,13 @@ def gen_multi(rng):
     return f"multi c={','.join(kinds)} dc=3501 dr={hx(rng.choice(REASONS))} s={s}"
 
 
+def gen_gated(rng):
+    """concurrent Protobuf HTTP-stream connections with different RPC reply payloads; the first one's
+    body write is held while the others are served (pooled encoder / shared buffer reuse)"""
+    n = rng.choice([2, 2, 3, 4])
+    return "gated r=" + ",".join(hx(gen_bin_payload(rng)[:2000]) for _ in range(n))
+
+
 def fmt_scn(t, m, dc, dr, steps):
     s = ",".join(f"{k}:{hx(d)}" for k, d in steps) if steps else "none"
     return f"scn t={t} m={m} dc={dc} dr={hx(dr)} s={s}"
@@ -283,7 +290,7 @@ def is_json(m):
 
 def parse_units(op, out):
     """connections of one scenario: list of (transport, status, expected count, msgs, body)"""
-    if op.startswith("multi "):
+    if out.startswith("multi ;; "):
         units = []
         for part in out.split(" ;; ")[1:]:
             kv = dict(w.split("=", 1) for w in part.split())
@@ -488,7 +495,8 @@ def run(ctx):
             for f in json.load(open(fj)).get("findings", []):
                 report(ctx, binary, evaluate(ctx, binary, f["replay"]["ops"], record=False), do_shrink=False)
         ops = load_corpus() + [gen_scenario(ctx.rng) for _ in range(ctx.scale(600, 10000))] + \
-            [gen_multi(ctx.rng) for _ in range(ctx.scale(120, 2000))]
+            [gen_multi(ctx.rng) for _ in range(ctx.scale(120, 2000))] + \
+            [gen_gated(ctx.rng) for _ in range(ctx.scale(60, 1000))]
         res = []
         chunk = 500
         for i in range(0, len(ops), chunk):
